@@ -56,6 +56,7 @@ class Obs:
 
         def validate(self, repository_root, encode_tilde):
             ent = obs.by_repo_id.get(id(self))
+            ok = False   # any other exception leaves through the finally clause as it is
             try:
                 out = o["validate"](self, repository_root, encode_tilde)
                 ok = True
@@ -247,7 +248,11 @@ def mirror_run_disagreements(r, before, after, requested):
     obtained = set(r["clean_args"]["needed"])
     pool_need = [(p, sz) for p, sz in r["pool_need"] if tuple(p) in obtained]
     need_paths = {tuple(p) for p, _ in pool_need}
-    # pool paths below dists (flat repositories) are published by move_metadata, outside the pool part of the model
+    # the model's `dists` is the metadata below the top-level folder that is swapped as a whole; flat repositories publish
+    # their metadata file by file next to (or among) the pool files: outside the model
+    if not r.get("meta_paths") or any(p[0] != "dists" for p in r["meta_paths"]):
+        return None
+    # pool paths below dists are published by move_metadata as well
     if any(p and p[0].startswith("dists") for p in need_paths):
         return None
     m = driver().call("mirror_run", tree=[[p, sz, 0] for p, sz in before], meta=[],
